@@ -197,7 +197,7 @@ class AbstractDateTime(AnyAtomicType):
             raise OverflowError("year overflow")
         else:
             self._year = year
-            if isleap(year + bool(self._xsd_version != '1.0' and year < 0)):
+            if isleap(year + bool(year < 0)):
                 self._dt = datetime.datetime(4, month, day, hour, minute,
                                              second, microsecond, tzinfo)
             else:
@@ -319,7 +319,7 @@ class AbstractDateTime(AnyAtomicType):
                     year -= 1
 
                 # The leap years are the ones of the constructor
-                leap_year = year + bool(self._xsd_version != '1.0' and year < 0)
+                leap_year = year + bool(year < 0)
                 day = adjust_day(leap_year, month, self._dt.day)
 
                 kwargs = {k: getattr(self._dt, k) for k in self.pattern.groupindex.keys()}
